@@ -155,10 +155,11 @@ def vc_outerexp(H):
 
 
 def vc_pow(H):
-    """x**0 == scalar 1; x**n (n >= 1) == n-1 successive geometric products x*x*..; x**-n the same with inverse(x);
-    x**0.5 == sqrt(x)."""
+    """x**0 == scalar 1; x**n (n >= 1) is a product of n factors x; x**-n of n factors inverse(x); x**0.5 == sqrt(x); x**-0.5 the
+    square root of the inverse.  The returned operator tree is *evaluated* to (base, number of factors): powers of one element
+    associate and commute, so any bracketing (repeated multiplication, square-and-multiply) with the right count is accepted."""
     fuc = H.fn(MV, 'MultiVector.__pow__')
-    for power in (0, 1, 2, 4, -1, -3, 0.5):
+    for power in (0, 1, 2, 3, 4, 5, 6, 7, 9, 11, 12, -1, -3, -5, -6, 0.5):
         def body(ctx, power=power):
             one = sym('scalar-one')
             scal = []
@@ -170,14 +171,27 @@ def vc_pow(H):
                 ctx.oblige('x**0 is the scalar 1', r is one and len(scal) == 1 and tuple(scal[0]) == ((1,),))
                 return r
             if power == 0.5:
-                exp = m(x, 'sqrt')
-            else:
-                base = x if power > 0 else m(x, 'inv')
-                exp = base
-                for _ in range(abs(power) - 1):
-                    exp = m(exp, 'gp', base)
-            ctx.oblige(f'x**{power}: repeated geometric product (of the inverse for negative powers) / sqrt for 0.5', same(r, exp),
-                       meta={'got': repr(r), 'expected': repr(exp)})
+                ctx.oblige('x**0.5 is sqrt(x)', same(r, m(x, 'sqrt')), meta={'got': repr(r)})
+                return r
+            base = x if power > 0 else m(x, 'inv')
+
+            def count(t):
+                """number of factors `base` in a product tree (None: not a pure product of the base)"""
+                if isinstance(t, Rec) and same(t, base):
+                    return 1
+                if isinstance(t, Rec) and t.kind == 'call' and isinstance(t.parts[0], Rec) and t.parts[0].kind == 'attr' \
+                        and t.parts[0].parts[1] in ('gp', '__mul__') and len(t.parts[1]) == 1 and not t.parts[2]:
+                    a, b = count(t.parts[0].parts[0]), count(t.parts[1][0])
+                    return None if a is None or b is None else a + b
+                if isinstance(t, Rec) and t.kind == 'binop' and t.parts[0] == 'Mult':
+                    a, b = count(t.parts[1]), count(t.parts[2])
+                    return None if a is None or b is None else a + b
+                return None
+            n = count(r)
+            if n is None:
+                raise OutOfSubset(f'x**{power}: the result is not a product tree over one base: {r!r}')
+            ctx.oblige(f'x**{power}: a product of exactly {abs(power)} factors {"x" if power > 0 else "inverse(x)"}', n == abs(power),
+                       meta={'got': repr(r)[:300], 'factors': n})
             return r
         H.run_paths(fuc, f'power={power}', body)
 
